@@ -478,6 +478,13 @@ func loadChunk(l *Lexer, recordLen uint64) error {
 		if uncompressedCRC > 0 && crc != uncompressedCRC {
 			return &errInvalidChunkCrc{expected: uncompressedCRC, actual: crc}
 		}
+		// The decompressor stops pulling input once it has delivered the declared number of
+		// bytes (none at all for an empty chunk), which can leave part of the chunk record -
+		// e.g. the frame of an empty zstd stream - unread. Skip it so that the next record is
+		// read from the right place.
+		if _, err := io.Copy(io.Discard, lr); err != nil {
+			return fmt.Errorf("failed to skip unread chunk data: %w", err)
+		}
 		l.setNoneDecoder(l.uncompressedChunk[:uncompressedSize])
 	}
 	return nil
